@@ -699,7 +699,7 @@ func modelOfDesc(t *tdesc) *mtype {
 						mf.Str = true
 					default:
 						fm, ok := strings.CutPrefix(o, "format:")
-						if !ok || !map[string]bool{"sec": true, "milli": true, "micro": true, "nano": true, "unix": true, "unixmilli": true, "unixmicro": true, "unixnano": true}[fm] {
+						if !ok {
 							return nil
 						}
 						mf.Fmt = fm
@@ -708,7 +708,8 @@ func modelOfDesc(t *tdesc) *mtype {
 			}
 			if base := strings.TrimPrefix(f.T.K+f.T.elemK(), "ptr"); base == "time" && mf.Fmt == "" {
 				return nil // the default representation of time.Time (RFC 3339) is not modelled
-			} else if base != "time" && base != "duration" && mf.Fmt != "" {
+			}
+			if mf.Fmt != "" && !modelledFormat(ft, mf.Fmt) {
 				return nil
 			}
 			m.F = append(m.F, mf)
@@ -716,6 +717,33 @@ func modelOfDesc(t *tdesc) *mtype {
 		return m
 	}
 	return nil
+}
+
+// modelledFormat: the `format` options Arshal.tla gives a meaning for the type (through pointers)
+func modelledFormat(t *mtype, f string) bool {
+	in := func(xs ...string) bool {
+		for _, x := range xs {
+			if x == f {
+				return true
+			}
+		}
+		return false
+	}
+	switch t.K {
+	case "ptr":
+		return modelledFormat(t.E, f)
+	case "dur":
+		return in("sec", "milli", "micro", "nano")
+	case "time":
+		return in("unix", "unixmilli", "unixmicro", "unixnano")
+	case "bytes", "barr":
+		return in("base64", "base64url", "base32", "base32hex", "base16", "hex", "array")
+	case "float":
+		return in("nonfinite")
+	case "slice", "map":
+		return in("emitnull", "emitempty")
+	}
+	return false
 }
 
 // the model type as JSON-able data (every field of the TLA+ records present)
